@@ -295,6 +295,94 @@ theorem takeDs_spec {α : Type} (ds out : Ds α) (name : String) (ix : Ix) (cfg 
     · intro hmem
       exact takeVar_of_not_mem name p v hmem
 
+/-- TAKE, every form of index (tuple / dict over several dimensions / `(indices, axis=)` / tolerance / keepdims) and
+`names=`: the index is resolved ONCE on the Dataset's axes (`getIndices ds.axes ui cfg = .ok raw`); the keys of the
+result are the requested names in the order asked for (all keys when `names = none`); Dataset metadata kept; the axes
+of the result are the Dataset's selected axes and every variable of the result carries axes of that list (`OwnAxes`,
+distinct dimension names); and EVERY variable of the result IS the DimArray-level positional read of the variable of
+that name, with the resolved indices restricted to the dimensions the variable has (`Lib.takeRaw v (rawFor ...)`).
+
+Hypothesis `hn`: an explicit `names=` list has no repeated name (with a repeated name `__setitem__` overwrites: the
+keys of the result are then the de-duplicated list, see `takeDsMulti_dup_counterexample`).
+
+NOT in this statement (open): (a) the second step `takeRaw v (rawFor ..) = take v (.dict <index restricted to v.dims>)
+cfg` - needs `getIndices v.axes (.dict ...) cfg = rawFor ds.dims raw v.axes` under `GoodDs`, i.e. commuting
+`normalizeIndex` with the restriction of the dimension list; (b) the conjunct of `SharedAxes out` "every axis of the
+Dataset is used by some variable" - it is FALSE for the mirror (and for dimarray) when `names=` leaves out the only
+variables over some dimension: `data.axes` is laid out from ALL selected axes first. -/
+theorem takeDsMulti_spec_raw {α : Type} (ds out : Ds α) (names : Option (List String)) (ui : UserIndex) (cfg : IndexCfg)
+    (hg : GoodDs ds) (hn : ∀ l, names = some l → l.Nodup) (h : takeDsMulti ds names ui cfg = .ok out) :
+    ∃ raw pix, getIndices ds.axes ui cfg = .ok raw ∧
+      (raw.zip ds.axes).mapM (fun (x : RawIx × Axis) => resolveRaw x.1 x.2.size) = .ok pix ∧
+      out.axes = getAxesOrtho ds.axes raw pix ∧
+      out.keys = names.getD ds.keys ∧ out.attrs = ds.attrs ∧ OwnAxes out ∧ out.dims.Nodup ∧
+      ∀ kr ∈ out.vars, ∃ v, (kr.1, v) ∈ ds.vars ∧ takeRaw v (rawFor ds.dims raw v.axes) = .ok kr.2 := by
+  have hget : ∀ k v, ds.get? k = some v → (k, v) ∈ ds.vars := by
+    intro k v hk
+    unfold Ds.get? at hk
+    cases hf : ds.vars.find? (·.1 == k) with
+    | none => rw [hf] at hk; cases hk
+    | some kv =>
+      rw [hf] at hk
+      simp only [Option.map_some, Option.some.injEq] at hk
+      have h1 := List.mem_of_find?_eq_some hf
+      have h2 := List.find?_some hf
+      have h3 : kv.1 = k := by simpa using h2
+      rw [← h3, ← hk]
+      exact h1
+  have hsub : ∀ raw pix, getIndices ds.axes ui cfg = .ok raw →
+      (raw.zip ds.axes).mapM (fun (x : RawIx × Axis) => resolveRaw x.1 x.2.size) = .ok pix →
+      ∀ k v r, ds.get? k = some v → takeRaw v (rawFor ds.dims raw v.axes) = .ok r →
+        ∀ ax ∈ r.axes, ax ∈ getAxesOrtho ds.axes raw pix := by
+    intro raw pix hraw hpix k v r hk hr
+    exact takeRaw_axes_sub ds.axes raw pix v r hg.1.2.2 (hg.2.1 (k, v) (hget k v hk))
+      (getIndices_length _ _ _ _ hraw) hpix hr
+  have hnn : (names.getD ds.keys).Nodup := by
+    cases names with
+    | none => exact hg.2.2.1
+    | some l => exact hn l rfl
+  obtain ⟨raw, pix, hraw, hpix, h1, h2, h3, h4⟩ := takeDsMulti_closed ds out names ui cfg hg.1.2.2 hnn hsub h
+  refine ⟨raw, pix, hraw, hpix, h1, h3, h2, ?_, ?_, ?_⟩
+  · intro kr hkr ax hax
+    obtain ⟨v, hv, hr⟩ := h4 kr hkr
+    rw [h1]
+    exact hsub raw pix hraw hpix kr.1 v kr.2 hv hr ax hax
+  · unfold Ds.dims
+    rw [h1]
+    exact getAxesOrtho_names_nodup ds.axes raw pix hg.1.2.2
+  · intro kr hkr
+    obtain ⟨v, hv, hr⟩ := h4 kr hkr
+    exact ⟨v, hget kr.1 v hv, hr⟩
+
+/-- second step of `takeDsMulti_spec_raw`, reduced to ONE open obligation: every variable of the result is the variable's
+own `take` (any index `ui'`, any configuration `cfg'`) as soon as `_get_indices` on the VARIABLE's axes resolves `ui'` to
+the Dataset's resolved indices restricted to the variable's dimensions (`hres`; under `GoodDs`, for `ui'` = the normalised
+index restricted to `v.dims` this is obligation (2), not proved here). -/
+theorem takeDsMulti_spec_take {α : Type} (ds out : Ds α) (names : Option (List String)) (ui : UserIndex) (cfg : IndexCfg)
+    (hg : GoodDs ds) (hn : ∀ l, names = some l → l.Nodup) (h : takeDsMulti ds names ui cfg = .ok out) :
+    ∃ raw, getIndices ds.axes ui cfg = .ok raw ∧
+      ∀ kr ∈ out.vars, ∃ v, (kr.1, v) ∈ ds.vars ∧
+        ∀ ui' cfg', getIndices v.axes ui' cfg' = .ok (rawFor ds.dims raw v.axes) → take v ui' cfg' = .ok kr.2 := by
+  obtain ⟨raw, pix, hraw, _, _, _, _, _, _, h8⟩ := takeDsMulti_spec_raw ds out names ui cfg hg hn h
+  refine ⟨raw, hraw, fun kr hkr => ?_⟩
+  obtain ⟨v, hv, hr⟩ := h8 kr hkr
+  exact ⟨v, hv, fun ui' cfg' hres => by rw [← takeRaw_eq_take v ui' cfg' _ hres]; exact hr⟩
+
+/-- the keys a run leaves behind (`none`: the call failed) -/
+def keysOf (r : Except Err (Ds Nat)) : Option (List String) :=
+  match r with
+  | .ok o => some o.keys
+  | .error _ => none
+
+def dupDs : Ds Nat := { axes := [cexY], vars := [("b", cexB)] }
+
+/-- `hn` of `takeDsMulti_spec_raw` is needed: with a repeated name the keys of the result are not the list asked for -/
+theorem takeDsMulti_dup_counterexample :
+    keysOf (takeDsMulti dupDs (some ["b", "b"]) (.dict []) {}) = some ["b"] := by decide
+
+/-- the hypotheses of `takeDsMulti_spec_raw` are satisfiable by a non-trivial call (a boolean index along `y`, one name) -/
+example : keysOf (takeDsMulti dupDs (some ["b"]) (.dict [(.name "y", .mask [false, true])]) {}) = some ["b"] := by decide
+
 /-- the first-draft form of `takeDs_spec` -/
 theorem takeDs_sameData {α : Type} (ds out : Ds α) (name : String) (ix : Ix) (cfg : IndexCfg) (hg : GoodDs ds)
     (h : takeDs ds name ix cfg = .ok out) :
